@@ -1,7 +1,9 @@
 (* C15 -- An environment's behaviour depends on its contents, not on its history.
    Only statements here; proofs live in MJ.C15.Proofs.
 
-   Throughout: [tmpl] is any type of compiled templates, [compile] any function from sources to
+   Throughout: [tmpl] is any type of compiled templates, [render rc t regs] any function of the render call (which
+   context is passed, whether the output goes to a String or to a failing writer, on which thread), the
+   compiled template and the registries, [compile] any function from sources to
    "compiled template or error", [loader l now n] any function giving what loader closure [l] answers
    for name [n] at world time [now] (so loaders may change their answers over time), [builtin] any
    built-in registries and [render] any function of a compiled template and the registries that
@@ -65,7 +67,7 @@ Proof. exact loader_source_pinned_proof. Qed.
    every name renders, at every time, exactly as the specification's contents render - in the
    current environment and in the other one. *)
 Theorem world_refines_spec : forall tmpl compile loader builtin render,
-  (forall t f g, (forall k nm, f k nm = g k nm) -> render t f = render t g) ->
+  (forall rc t f g, (forall k nm, f k nm = g k nm) -> render rc t f = render rc t g) ->
   forall h : list wop,
   snd (world_run tmpl compile loader false render (wnew tmpl builtin) h) =
   snd (sworld_run tmpl compile loader render (snew builtin) h) /\
@@ -76,13 +78,13 @@ Proof. exact world_refines_spec_proof. Qed.
 (* Clone isolation: no operation on the current environment (templates, loader, registries, renders)
    changes what any name renders in the other environment - whichever of clone/original that is. *)
 Theorem clone_isolated : forall tmpl compile loader builtin render,
-  (forall t f g, (forall k nm, f k nm = g k nm) -> render t f = render t g) ->
+  (forall rc t f g, (forall k nm, f k nm = g k nm) -> render rc t f = render rc t g) ->
   forall (h : list wop) o, rebinds o = false ->
   let w := wfinal tmpl compile loader builtin render h in
   let w' := fst (world_step tmpl compile loader false render w o) in
   match other _ w, other _ w' with
   | Some e, Some e' =>
-      forall n now, observe tmpl compile loader render (hp _ w') e' n now = observe tmpl compile loader render (hp _ w) e n now
+      forall rc n now, observe tmpl compile loader render (hp _ w') e' rc n now = observe tmpl compile loader render (hp _ w) e rc n now
   | None, None => True
   | _, _ => False
   end.
@@ -91,7 +93,7 @@ Proof. exact clone_isolated_proof. Qed.
 (* History independence of whole environments: two histories after which the environments hold the
    same templates, loader and registry contents give the same results for every continuation. *)
 Theorem env_history_independent : forall tmpl compile loader builtin render,
-  (forall t f g, (forall k nm, f k nm = g k nm) -> render t f = render t g) ->
+  (forall rc t f g, (forall k nm, f k nm = g k nm) -> render rc t f = render rc t g) ->
   forall h1 h2 : list wop,
   world_same tmpl (wfinal tmpl compile loader builtin render h1) (wfinal tmpl compile loader builtin render h2) ->
   forall h, snd (world_run tmpl compile loader false render (wfinal tmpl compile loader builtin render h1) h) =
@@ -125,14 +127,34 @@ Theorem adhoc_is_noop : forall tmpl compile loader render (w : world tmpl) how n
      (snd (world_step tmpl compile loader false render w (WAdhoc how n x)) :: snd (world_run tmpl compile loader false render w h))) /\
   (snd (world_step tmpl compile loader false render w (WAdhoc how n x)) =
      (match compile (adhoc_mode how (cfg _ (st _ (cur _ w)))) x with
-      | COk t => render t (regs_of tmpl (hp _ w) (cur _ w))
+      | COk t => render 0 t (regs_of tmpl (hp _ w) (cur _ w))
       | CErr c => o_err c
       end)).
 Proof. exact adhoc_is_noop_proof. Qed.
 
+(* A render leaves no trace.  Whatever is rendered - any stored or loader-served name, any ad-hoc source,
+   with any context, into a String or into a failing writer, on this or another thread, successfully or
+   failing at compile time, at run time, in the sink or in the caller's Serialize impl - every name the
+   environment holds renders afterwards, in every context and on every sink, exactly as before.
+   (A name it does not hold yet may be pinned by its first request: loader_source_pinned.)
+   With world_refines_spec (every render's result is a function of call, template and registries) this is
+   "renders do not influence each other" for the modelled state; that the ENGINE keeps no other state
+   (thread-locals, bookkeeping inside shared compiled templates or shared values) is what the
+   correspondence tests. *)
+Theorem render_leaves_no_trace : forall tmpl compile loader builtin render,
+  (forall rc t f g, (forall k nm, f k nm = g k nm) -> render rc t f = render rc t g) ->
+  forall (h : list wop) o, is_render o = true ->
+  forall rc n now kx,
+  let w := wfinal tmpl compile loader builtin render h in
+  let w' := fst (world_step tmpl compile loader false render w o) in
+  tpl (abs tmpl (st _ (cur _ w))) n = Some kx ->
+  observe tmpl compile loader render (hp _ w') (cur _ w') rc n now =
+  observe tmpl compile loader render (hp _ w) (cur _ w) rc n now.
+Proof. exact render_leaves_no_trace_proof. Qed.
+
 (* ... and after any history that result is the specification's: a function of the contents only. *)
 Theorem adhoc_result : forall tmpl compile loader builtin render,
-  (forall t f g, (forall k nm, f k nm = g k nm) -> render t f = render t g) ->
+  (forall rc t f g, (forall k nm, f k nm = g k nm) -> render rc t f = render rc t g) ->
   forall (h : list wop) how n x,
   snd (world_step tmpl compile loader false render (wfinal tmpl compile loader builtin render h) (WAdhoc how n x)) =
   snd (sworld_step tmpl compile loader render (sfinal tmpl compile loader builtin render h) (WAdhoc how n x)).
@@ -140,24 +162,24 @@ Proof. exact adhoc_result_proof. Qed.
 
 (* non-vacuity: the concrete instance used by the correspondence run satisfies [render_ext]; the
    hypotheses of loader_source_pinned hold for a concrete history (loader 1 at time 0 gives name 1 the
-   compiling source 16024; at time 1 it would give a different one), and two different histories reach
+   compiling source 32056; at time 1 it would give a different one), and two different histories reach
    the same contents *)
-Example render_ext_instance : forall t f g, (forall k nm, f k nm = g k nm) -> c_render t f = c_render t g.
-Proof. intros [m t] f g H. unfold c_render, c_base. rewrite !H. reflexivity. Qed.
+Example render_ext_instance : forall rc t f g, (forall k nm, f k nm = g k nm) -> c_render rc t f = c_render rc t g.
+Proof. intros rc [m t] f g H. unfold c_render, c_base. rewrite !H. reflexivity. Qed.
 Example loader_source_pinned_witness :
   let s := final ctmpl c_compile c_loader [OAddOwned 0 40; OSetLoader 1] in
-  tpl (abs ctmpl s) 1 = None /\ ldr _ s = Some 1 /\ c_loader 1 0 1 = LFound 16024 /\ c_compile (MTemplate 0) 16024 = COk (0, 16024) /\
-  c_loader 1 1 1 = LFound 16187.
+  tpl (abs ctmpl s) 1 = None /\ ldr _ s = Some 1 /\ c_loader 1 0 1 = LFound 32056 /\ c_compile (MTemplate 0) 32056 = COk (0, 32056) /\
+  c_loader 1 1 1 = LFound 32379.
 Proof. vm_compute. repeat split. Qed.
 Example history_independent_witness :
-  sim (abs ctmpl (final ctmpl c_compile c_loader [OAddOwned 0 40; OAddBorrowed 0 9; OAddBorrowed 1 48; ORemove 1; OAddOwned 1 48]))
+  sim (abs ctmpl (final ctmpl c_compile c_loader [OAddOwned 0 40; OAddBorrowed 0 17; OAddBorrowed 1 48; ORemove 1; OAddOwned 1 48]))
       (abs ctmpl (final ctmpl c_compile c_loader [OAddBorrowed 1 48; OAddOwned 0 40])).
 Proof. split; [|split; reflexivity]. intros n. vm_compute. destruct n as [|[p|p|]|p]; try reflexivity; destruct p; reflexivity. Qed.
 
 (* the configuration matters: the same source stored under configuration 0 and rendered ad hoc after
    set_trim_blocks(true) gives different outputs ("\n5" vs "5"), and the stored one keeps its own *)
 Example adhoc_uses_current_config_witness :
-  run [0; 4;  0; 0; 46;  22; 1; 0;  14; 0; 46;  8; 0; 0] =
+  run [0; 4;  0; 0; 86;  22; 1; 0;  14; 0; 86;  8; 0; 0] =
       [2; 0;  5; 21; 1; 5; 1; 5; 1; 5;  0; 0; 0; 0; 0; 0; 0; 0; 0;
        2; 0;  5; 21; 1; 5; 1; 5; 1; 5;  0; 0; 0; 0; 0; 0; 0; 0; 0;
        0; 5;  5; 21; 1; 5; 1; 5; 1; 5;  0; 0; 0; 0; 0; 0; 0; 0; 0;
@@ -174,5 +196,6 @@ Print Assumptions clone_isolated.
 Print Assumptions env_history_independent.
 Print Assumptions adhoc_is_noop.
 Print Assumptions adhoc_result.
+Print Assumptions render_leaves_no_trace.
 Print Assumptions failed_add_evicts_before_fix.
 Print Assumptions failed_add_evicts_before_fix_sym.
